@@ -296,6 +296,10 @@ Proof.
     assert (Hev : forall v0, ev_ok s (EDelivered p v0 o)).
     { intros v0 p' o' Ho. cbn [outcome_of] in Ho. destruct (Nat.eqb_spec p p') as [->|]; [|discriminate].
       injection Ho as <-. eauto. }
+    assert (HevN : ev_ok s (dev p m o)).
+    { unfold dev. destruct (invocable (mbeh m)); [apply Hev|].
+      intros p' o' Ho. cbn [outcome_of] in Ho. destruct (Nat.eqb_spec p p') as [->|]; [|discriminate].
+      injection Ho as <-. eauto. }
     destruct o as [v|f].
     + destruct (meth_send good_pcfg s m) as [s0 e0] eqn:E0.
       destruct (meth_result (next s) s0 m) as [s0' x] eqn:E1.
@@ -304,9 +308,9 @@ Proof.
       apply meth_send_good in E0; [|exact I].
       apply meth_result_good in E1; [|eapply good_inv; exact E0].
       apply resolver_opt_good in Er; [|eapply good_inv; exact E1].
-      change (EDelivered p (mid m) (Val v) :: e0 ++ e1) with ([EDelivered p (mid m) (Val v)] ++ (e0 ++ ([] ++ e1))).
+      change (dev p m (Val v) :: e0 ++ e1) with ([dev p m (Val v)] ++ (e0 ++ ([] ++ e1))).
       eapply good_trans; [|eapply good_trans; [exact E0|eapply good_trans; eassumption]].
-      apply good_evs; [exact I|]. constructor; [apply Hev|constructor].
+      apply good_evs; [exact I|]. constructor; [apply HevN|constructor].
     + destruct (resolver good_pcfg s (mres m) (RFail f)) as [s1 e1] eqn:Er.
       intros H; injection H as <- <-. apply resolver_good in Er; [|exact I].
       change (EDelivered p (mid m) (Fail f) :: e1) with ([EDelivered p (mid m) (Fail f)] ++ e1).
@@ -511,8 +515,19 @@ Qed.
 Lemma delivered_to_app q a b : delivered_to q (a ++ b) = delivered_to q a ++ delivered_to q b.
 Proof.
   induction a as [|e a IH]; [reflexivity|]. destruct e; cbn [app delivered_to]; rewrite ?IH; try reflexivity.
-  destruct (Nat.eqb p q); cbn [app]; rewrite ?IH; reflexivity.
+  all: destruct (Nat.eqb p q); cbn [app]; rewrite ?IH; reflexivity.
 Qed.
+
+(* what [dev] reports is a hand-over of that message to that promise, whichever of the two events it is *)
+Lemma delivered_to_dev q p m o : delivered_to q [dev p m o] = if Nat.eqb p q then [mid m] else [].
+Proof. unfold dev. destruct (invocable (mbeh m)); reflexivity. Qed.
+Lemma dev_not_crash p m o q top : dev p m o <> ECrash q top.
+Proof. unfold dev. destruct (invocable (mbeh m)); discriminate. Qed.
+Lemma dev_not_chained p m o a b : dev p m o <> EChained a b.
+Proof. unfold dev. destruct (invocable (mbeh m)); discriminate. Qed.
+Lemma dev_quiet p m o q :
+  sent_to q [dev p m o] = [] /\ whens q [dev p m o] = [] /\ observed q [dev p m o] = [].
+Proof. unfold dev. destruct (invocable (mbeh m)); repeat split. Qed.
 
 (* D10, for the record: with `self._state == BROKEN` (comparison) in _break the promise stays EVENTUAL after being
    broken, a later when() fails with AttributeError and a second resolution is not refused *)
@@ -534,6 +549,90 @@ Example pr_example :
     [ESent 0 1; EWhen 0 100; EChained 0 1; ESent 0 2; EDelivered 0 1 (Val 9); EDelivered 0 2 (Val 9); EObserved 0 100 (Val 9);
      EWhen 0 101; EObserved 0 101 (Val 9); EWhen 3 102; EObserved 3 102 (Fail 5); ERefused 0 true].
 Proof. vm_compute. reflexivity. Qed.
+
+(* ======================= a message to a method the target does not have ======================= *)
+
+(* the delivery of such a message to a value, for EVERY configuration and state: nothing runs on the target (no
+   re-entrant send, no Deferred is remembered), the one thing that happens is the call of the result promise's
+   resolver with the AttributeError Failure; the report is the hand-over event that has no counterpart in the
+   implementation trace *)
+Lemma pr_nometh_delivery : forall c s p m pr v,
+  tbl s p = Some pr -> ptarget pr = Some (Val v) -> mbeh m = BNoMeth ->
+  run_task c s (TDeliver p m) =
+    (let '(s1, e) := resolver c s (mres m) (RFail attr_error) in (s1, EDeliveredNM p (mid m) (Val v) :: e)).
+Proof.
+  intros c s p m pr v Hp Ht Hb. cbn [run_task]. rewrite Hp, Ht. unfold meth_send, meth_result, dev, resolver_opt.
+  rewrite Hb. cbn [invocable]. destruct (resolver c s (mres m) (RFail attr_error)) as [s1 e]. reflexivity.
+Qed.
+
+(* sendOnly(p).nosuch(..): the Failure is swallowed -- the state is untouched, nothing is reported but the hand-over *)
+Theorem pr_nometh_sendonly_swallowed : forall s p m pr v,
+  tbl s p = Some pr -> ptarget pr = Some (Val v) -> mbeh m = BNoMeth -> mres m = None ->
+  run_task src_pcfg s (TDeliver p m) = (s, [EDeliveredNM p (mid m) (Val v)]).
+Proof.
+  intros s p m pr v Hp Ht Hb Hr. rewrite (pr_nometh_delivery _ _ _ _ _ _ Hp Ht Hb), Hr. reflexivity.
+Qed.
+
+(* send(p).nosuch(..): the result promise -- still EVENTUAL, as send() made it -- is BROKEN with the AttributeError;
+   the messages and observers that were waiting on it are released towards that Failure, in order, behind everything
+   already scheduled (so: the tasks queued behind this delivery are untouched); no message is sent, no method runs *)
+Theorem pr_nometh_breaks_result : forall s p m pr v r rr s' e,
+  tbl s p = Some pr -> ptarget pr = Some (Val v) -> mbeh m = BNoMeth ->
+  mres m = Some r -> tbl s r = Some rr -> pstate rr = SEventual -> plive rr = true ->
+  run_task src_pcfg s (TDeliver p m) = (s', e) ->
+  e = [EDeliveredNM p (mid m) (Val v)] /\
+  tbl s' r = Some {| pstate := SBroken; ptarget := Some (Fail attr_error); plive := false; ppending := []; pwatch := [] |} /\
+  (forall i, i <> r -> tbl s' i = tbl s i) /\ next s' = next s /\ defs s' = defs s /\
+  queue s' = queue s ++ map (TDeliver r) (ppending rr) ++ map (fun wt => TCallback r wt (Fail attr_error)) (pwatch rr).
+Proof.
+  rewrite src_is_good. intros s p m pr v r rr s' e Hp Ht Hb Hr Hrr Hs Hl.
+  rewrite (pr_nometh_delivery _ _ _ _ _ _ Hp Ht Hb), Hr. unfold resolver, resolve_call, resolve2. rewrite Hrr, Hs, Hl.
+  cbn [good_pcfg pc_resolve_guarded pc_break_guard pc_break_assigns pc_drain_order pc_watch_order
+       is_eventual is_broken andb negb].
+  intros H; injection H as <- <-. split; [reflexivity|]. cbn [enq setp tbl next defs queue].
+  split; [apply upd_same|]. split; [intros i Hi; apply upd_other; exact Hi|].
+  split; [reflexivity|]. split; [reflexivity|]. unfold drain_tasks. cbn [ord]. reflexivity.
+Qed.
+
+(* non-vacuity, and the whole story on one program: a send to a missing method between two ordinary sends, queued
+   before the resolution.  All three messages are handed to the resolution in send order, once each; the neighbours'
+   methods are invoked (their result promises 1 and 3 become NEAR), nothing is invoked for message 2, its result
+   promise 2 is BROKEN with the AttributeError, and the observer waiting on it is told that Failure *)
+Example pr_nometh_example :
+  let ops := [PNew; PSend 0 1 (BRet 11); PSend 0 2 BNoMeth; PSend 0 3 (BRet 13); PWhen 2 100;
+              PResolve 0 (RVal 9); PTurn; PTurn] in
+  let '(s, t) := prun src_pcfg ps0 ops in
+  (t, sent_to 0 t, delivered_to 0 t, map (fun i => enc_promise (tbl s i)) [1; 2; 3]%nat, flat_map enc_pev t)
+  = ([ESent 0 1; ESent 0 2; ESent 0 3; EWhen 2 100;
+      EDelivered 0 1 (Val 9); EDeliveredNM 0 2 (Val 9); EDelivered 0 3 (Val 9); EObserved 2 100 (Fail (-1))],
+     [1; 2; 3], [1; 2; 3], [[2; 1; 11]; [3; 2; -1]; [2; 1; 13]],
+     [1; 0; 1;  1; 0; 2;  1; 0; 3;  2; 0; 1; 9;  2; 0; 3; 9;  3; 2; 100; 1; -1]).
+Proof. vm_compute. reflexivity. Qed.
+
+(* the same message sent with sendOnly after the resolution, and one sent to a BROKEN promise (where it behaves like
+   every other message: the resolver gets the promise's own Failure, not an AttributeError) *)
+Example pr_nometh_example2 :
+  let ops := [PNew; PNew; PResolve 0 (RVal 9); PResolve 1 (RFail 4); PSendOnly 0 1 BNoMeth; PSendOnly 0 2 (BRet 0);
+              PSend 1 3 BNoMeth; PWhen 2 100; PTurn; PTurn] in
+  let '(s, t) := prun src_pcfg ps0 ops in
+  (t, List.length (queue s), enc_promise (tbl s 2))
+  = ([ESent 0 1; ESent 0 2; ESent 1 3; EWhen 2 100;
+      EDeliveredNM 0 1 (Val 9); EDelivered 0 2 (Val 9); EDelivered 1 3 (Fail 4); EObserved 2 100 (Fail 4)],
+     0%nat, [3; 2; 4]).
+Proof. vm_compute. reflexivity. Qed.
+
+(* the hypotheses of pr_nometh_breaks_result are met in a reachable state (with a backlog and an observer on the result
+   promise), and its conclusion is what the model computes there *)
+Example pr_nometh_breaks_result_example :
+  let ops := [PNew; PResolve 0 (RVal 9); PSend 0 1 BNoMeth; PSendOnly 1 2 (BRet 0); PWhen 1 100] in
+  let s := fst (prun src_pcfg ps0 ops) in
+  let m := {| mid := 1; mbeh := BNoMeth; mres := Some 1%nat |} in
+  queue s = [TDeliver 0 m] /\
+  (match tbl s 0 with Some pr => ptarget pr | None => None end) = Some (Val 9) /\
+  (match tbl s 1 with Some rr => (pstate rr, plive rr, map mid (ppending rr), pwatch rr) | None => (SNear, false, [], []) end)
+    = (SEventual, true, [2], [W 100]) /\
+  queued_for 1 (queue (fst (run_one src_pcfg s))) = [2] /\ cb_for 1 (queue (fst (run_one src_pcfg s))) = [100].
+Proof. vm_compute. repeat split. Qed.
 
 (* ======================= OneShotObserverList ======================= *)
 Lemma oso_asserts : ob_fire_asserts_unfired = true.
